@@ -140,7 +140,7 @@ def run(chk, replay=None):
             if (q % 2 == 0 and cnt[q // 2 - 1] >= 2) or ge[q - 1] in (0, n) or le[q - 1] in (0, n):
                 chk.nontrivial('%s|%d' % (cnt, q))
         for ki, kind in enumerate(kinds):
-            cont = containers[(ci + ki) % len(containers)]
+            cont = rng.choice(containers)
             bad = eval_case(cnt, n, ge, le, kind, cont)
             if bad:
                 nb += 1
